@@ -52,14 +52,16 @@ def digitsValue (ds : List Nat) : Nat := ds.foldl (fun a d => a * 10 + d) 0
 def stripSpaces (s : Str) : Str :=
   ((s.dropWhile isIntSpace).reverse.dropWhile isIntSpace).reverse
 
+/-- optional sign: (negative?, rest) -/
+def splitSign : Str → Bool × Str
+  | '-' :: r => (true, r)
+  | '+' :: r => (false, r)
+  | r => (false, r)
+
 /-- `int(s)` for a `str` argument; `none` = `ValueError` -/
 def pyInt (s : Str) : Option Int :=
   let t := stripSpaces s
-  let sb : Bool × Str :=
-    match t with
-    | '-' :: r => (true, r)
-    | '+' :: r => (false, r)
-    | r => (false, r)
+  let sb : Bool × Str := splitSign t
   match parseDigits sb.2 with
   | none => none
   | some ds =>
